@@ -1319,3 +1319,86 @@ def readable_value(rng, depth, defs):
         return "(list %s)" % " ".join(items)
     items = [readable_value(rng, depth - 1, defs) for _ in range(rng.randint(0, 5))]
     return "(vector %s)" % " ".join(items)
+
+
+# ------------------------------------------------------------------------------------------
+# C15: fault programs laid out over several lines, with known extents
+# ------------------------------------------------------------------------------------------
+def layout_program(rng, forms):
+    """returns (text, extents) where extents[k] = ((line, col) of the first character,
+    (line, col) just after the last character) of form k; 1-based, columns count characters"""
+    text = ""
+    line, col = 1, 1
+    extents = []
+
+    def emit(s):
+        nonlocal text, line, col
+        for ch in s:
+            text += ch
+            if ch == "\n":
+                line += 1
+                col = 1
+            else:
+                col += 1
+
+    for f in forms:
+        emit(rng.choice(["", "\n", "  ", "\n\n", "; note (\n", "   ; )\n  ", "\t"]))
+        toks = split_tokens(f)
+        start = None
+        depth = 0
+        for j, t in enumerate(toks):
+            if j > 0:
+                prev = toks[j - 1]
+                glue = (prev in ("(", "'", "#(") or t == ")")
+                sep = rng.choice(["", " "]) if glue else rng.choice([" ", " ", "  ", "\n", "\n    ", " ; c\n "]) if depth > 0 else " "
+                emit(sep)
+            if start is None:
+                start = (line, col)
+            emit(t)
+            if t in ("(", "#("):
+                depth += 1
+            elif t == ")":
+                depth -= 1
+        extents.append((start, (line, col)))
+        emit(rng.choice(["\n", "\n", " ", "\n\n"]))
+    return text, extents
+
+
+LOC_FAULTS = {
+    # kind -> list of (expression, marker token whose end is the expected location or None)
+    "unbound-ref": [("undefined-variable", "undefined-variable"), ("(+ 1 undefined-variable)", "undefined-variable"),
+                    ("(undefined-procedure 1 2)", "undefined-procedure"), ("(list 1 (car undefined-variable))", "undefined-variable")],
+    "non-procedure": [("(5 1)", "5"), ("(#t 2 3)", "#t"), ("(\"s\" 1)", "\"s\""), ("(+ 1 (7 2))", "7")],
+    "unbound-set": [("(set! undefined-variable 1)", None)],
+    "arity": [("((lambda (a b) a) 1)", None), ("(car 1 2)", None), ("(fa2 1)", None)],
+    "type": [("(+ 1 'a)", None), ("(car 5)", None), ("(vector-ref 5 0)", None)],
+    "vector-index": [("(vector-ref (vector 1 2) 2)", None)],
+    "literal-vector": [("(vector-set! '#(1 2) 0 9)", None)],
+    "division-by-zero": [("(/ 1 0)", None), ("(floor-quotient 7 0)", None)],
+}
+LOC_CONTEXTS = ["direct", "nested", "lambda-call", "apply", "library-lambda", "derived"]
+
+
+def located_fault_program(rng, kind, context):
+    """the fault sits in the text of the failing top-level form itself. returns (forms, index, marker)"""
+    g = Gen(rng, ticks=False, derived=True)
+    forms, _ = g.program(rng.randint(0, 5), 2)
+    forms.append("(define fa2 (lambda (a b) (+ a b)))")
+    expr, marker = rng.choice(LOC_FAULTS[kind])
+    if context == "direct":
+        f = expr
+    elif context == "nested":
+        f = rng.choice(["(list 1 %s 3)", "(+ 1 (if #t %s 0))", "(vector (cons 1 %s))"]) % expr
+    elif context == "lambda-call":
+        f = rng.choice(["((lambda (z) %s) 1)", "((lambda () 1 %s))", "((lambda (z) (if z %s 0)) #t)"]) % expr
+    elif context == "apply":
+        f = "(apply (lambda (z) %s) '(1))" % expr
+    elif context == "library-lambda":
+        f = rng.choice(["(map (lambda (z) %s) '(1 2))", "(for-each (lambda (z) %s) '(1))", "(fold-left (lambda (z acc) %s) 0 '(1))"]) % expr
+    else:
+        f = rng.choice(["(let ((z 1)) z %s)", "(let* ((z 1) (w z)) w %s)", "(cond (#f 1) (else 2 %s))", "(and 1 %s)", "(or #f %s)",
+                        "(begin 1 %s)", "(when #t 1 %s)", "(case 2 ((1) 0) ((2) 5 %s) (else 1))"]) % expr
+    idx = len(forms)
+    forms.append(f)
+    forms.append("(display 'not-reached)")
+    return forms, idx, marker
